@@ -156,7 +156,7 @@ def decode_abstract_graph(abstract_graph: phs.PEOp, graph: phs.PEOp) -> Sequence
             target_operation = list(equivalent_choice.operations())[0]
             assert isinstance(target_operation, Operation)
             for i, operation in enumerate(switchee.operations()):
-                if type(target_operation) is type(operation):
+                if phs.same_operation(target_operation, operation):
                     call_switches.append(i)
                     break
             # If no match happened, raise an error.
